@@ -20,7 +20,8 @@ class FakeBN:
     if zero_gamma:
       g[0] = 0.0
     self.gamma = tf.constant(g) if scale else None
-    self.beta = tf.constant(rng.normal(0, 1, size=c).astype("float32")) if center else tf.constant(np.zeros(c, dtype="float32"))
+    self.beta = tf.constant(rng.normal(0, 1, size=c).astype("float32")) if center else None       # Keras 2: no beta when center=False
+    self.beta_ref = self.beta if center else tf.constant(np.zeros(c, dtype="float32"))
     self.moving_mean = tf.constant(rng.normal(0, 1, size=c).astype("float32"))
     v = rng.uniform(0.1, 2.0, size=c).astype("float32")
     if tiny_var:
@@ -42,6 +43,149 @@ class FakeBN:
 
 class FakeSelf:
   pass
+
+
+def real_layers(rep, rng):
+  """The REAL folded layer classes (built through a batch-norm stand-in, see harness/env.py) and the REAL unfold_model:
+  layer(x, training=False) = conv -> batch norm; get_folded_weights = documented formulas; a functional model of folded
+  layers and its unfold_model image (plain QConv2D / QDepthwiseConv2D carrying the folded weights and the same
+  quantizers) predict the same at inference."""
+  import keras
+  import qkeras
+  from qkeras import bn_folding_utils as bfu
+  env.install_keras2_graph_shims()
+  env.install_keras2_batchnorm_standin()
+  from qkeras.qconv2d_batchnorm import QConv2DBatchnorm
+  from qkeras.qdepthwiseconv2d_batchnorm import QDepthwiseConv2DBatchnorm
+  from qkeras.quantizers import get_quantizer
+  co = {}
+  qkeras.utils._add_supported_quantized_objects(co)
+  n = 24 if rep.tier == "quick" else 300
+  n_layer = n_unfold = 0
+  KQ = [None, "quantized_bits(8,2,1,alpha=1.0)", "quantized_bits(4,0,1,alpha=1.0)", "quantized_po2(6)"]
+  BQ = [None, "quantized_bits(8,3,1)"]
+  for i in range(n):
+    nl = 1 + int(rng.integers(0, 2))
+    spec = []
+    for j in range(nl):
+      spec.append(dict(depthwise=bool((i + j) % 2), mode=["ema_stats_folding", "batch_stats_folding"][int(rng.integers(0, 2))],
+                       use_bias=bool(rng.integers(0, 3) > 0), scale=bool(rng.integers(0, 3) > 0), center=bool(rng.integers(0, 4) > 0),
+                       strides=int(rng.integers(1, 3)), padding=["valid", "same"][int(rng.integers(0, 2))], co=int(rng.integers(1, 4)),
+                       dm=int(rng.integers(1, 3)), k=int(rng.integers(1, 4)), kq=KQ[int(rng.integers(0, len(KQ)))], bq=BQ[int(rng.integers(0, 2))],
+                       eps=[1e-3, 1e-5, 0.1][int(rng.integers(0, 3))], efd=[None, None, 0, 5, -1][int(rng.integers(0, 5))],
+                       act=[None, "quantized_relu(6,2)"][int(rng.integers(0, 2))]))
+    ci = int(rng.integers(1, 4))
+    desc = {"input_channels": ci, "layers": spec}
+    rep.count(("real", str(desc)))
+    try:
+      inp = keras.Input((8, 8, ci), name=f"in{i}")
+      x = inp
+      lyrs = []
+      for j, sp in enumerate(spec):
+        kw = dict(strides=(sp["strides"],) * 2, padding=sp["padding"], use_bias=sp["use_bias"], bias_quantizer=sp["bq"], scale=sp["scale"], center=sp["center"],
+                  epsilon=sp["eps"], ema_freeze_delay=sp["efd"], folding_mode=sp["mode"], activation=sp["act"], name=f"f{i}_{j}")
+        if sp["depthwise"]:
+          l = QDepthwiseConv2DBatchnorm((sp["k"],) * 2, depth_multiplier=sp["dm"], depthwise_quantizer=sp["kq"], **kw)
+        else:
+          l = QConv2DBatchnorm(sp["co"], (sp["k"],) * 2, kernel_quantizer=sp["kq"], **kw)
+        x = l(x)
+        lyrs.append(l)
+      m = keras.Model(inp, x, name=f"fm{i}")
+      m(np.zeros((1, 8, 8, ci), dtype="float32"), training=False)   # the first eager call builds the batch-norm sub-layers
+      # random weights and batch-norm statistics
+      for l, sp in zip(lyrs, spec):
+        kvar = l.depthwise_kernel if sp["depthwise"] else l.kernel
+        kvar.assign(rng.normal(0, 1, size=kvar.shape).astype("float32"))
+        if sp["use_bias"]:
+          l.bias.assign(rng.normal(0, 1, size=l.bias.shape).astype("float32"))
+        bn = l.batchnorm
+        c = bn.moving_mean.shape[0]
+        if bn.gamma is not None:
+          bn.gamma.assign(rng.uniform(0.5, 1.5, size=c).astype("float32"))
+        if bn.beta is not None:
+          bn.beta.assign(rng.normal(0, 1, size=c).astype("float32"))
+        bn.moving_mean.assign(rng.normal(0, 1, size=c).astype("float32"))
+        v = rng.uniform(0.05, 2.0, size=c).astype("float32")
+        if rng.integers(0, 5) == 0:
+          v[0] = 4e-3
+        bn.moving_variance.assign(v)
+      xin = rng.normal(0, 1, size=(2, 8, 8, ci)).astype("float32")
+      # ---- every layer alone: inference call vs conv -> batch norm, folded weights vs the documented formulas
+      cur = tf.constant(xin)
+      for l, sp in zip(lyrs, spec):
+        y = l(cur, training=False).numpy()
+        bn = l.batchnorm
+        c = bn.moving_mean.shape[0]
+        g = bn.gamma.numpy().astype(np.float64) if bn.gamma is not None else np.ones(c)
+        be = bn.beta.numpy().astype(np.float64) if bn.beta is not None else np.zeros(c)
+        mu, var = bn.moving_mean.numpy().astype(np.float64), bn.moving_variance.numpy().astype(np.float64)
+        inv = g / np.sqrt(var + sp["eps"])
+        b = l.bias.numpy().astype(np.float64) if sp["use_bias"] else np.zeros(c)
+        kern = (l.depthwise_kernel if sp["depthwise"] else l.kernel).numpy()
+        s_, pad = sp["strides"], sp["padding"].upper()
+        if sp["depthwise"]:
+          conv = lambda k, t=cur: tf.nn.depthwise_conv2d(t, tf.constant(k, dtype=tf.float32), [1, s_, s_, 1], pad)
+          want_fk = kern.astype(np.float64) * inv.reshape(kern.shape[2], kern.shape[3])
+        else:
+          conv = lambda k, t=cur: tf.nn.conv2d(t, tf.constant(k, dtype=tf.float32), s_, pad)
+          want_fk = kern.astype(np.float64) * inv
+        want_fb = (b - mu) * inv + be
+        fw = [np.asarray(a) for a in l.get_folded_weights()]
+        fk, fb = fw[0], fw[1]
+        okw = (np.allclose(fk, want_fk, rtol=2e-4, atol=1e-5 * (1 + np.abs(want_fk).max())) and
+               np.allclose(fb, want_fb, rtol=2e-4, atol=1e-5 * (1 + np.abs(want_fb).max())))
+        if not okw:
+          rep.violation(f"real-folded-weights-{i}-{l.name}", f"{sp}: get_folded_weights of the built layer differs from kernel*gamma/sqrt(var+eps), "
+                        f"(bias-mean)*gamma/sqrt(var+eps)+beta (max diff kernel {float(np.abs(fk - want_fk).max()):.3g}, bias {float(np.abs(fb - want_fb).max()):.3g})",
+                        {"layer": sp})
+        qk_ = get_quantizer(sp["kq"]) if sp["kq"] else (lambda t: t)
+        qb_ = get_quantizer(sp["bq"]) if sp["bq"] else (lambda t: t)
+        if sp["kq"] is None and sp["bq"] is None:
+          ref = (conv(kern).numpy().astype(np.float64) + b - mu) * inv + be                    # conv followed by batch norm
+        else:
+          ref = (conv(qk_(tf.constant(fk))) + qb_(tf.constant(fb))).numpy().astype(np.float64)  # quantizers are discontinuous: use the layer's own folded weights
+        if sp["act"]:
+          ref = get_quantizer(sp["act"])(tf.constant(ref.astype("float32"))).numpy().astype(np.float64)
+        tol = 2e-4 * (1 + np.abs(ref).max())
+        # an activation quantizer can flip one code where the pre-activation sits on a rounding boundary
+        bad = np.abs(y - ref) > tol
+        if bad.mean() > (0.02 if sp["act"] else 0.0):
+          rep.violation(f"real-fold-equiv-{i}-{l.name}", f"{sp}: the built folded layer at training=False differs from conv -> batch norm "
+                        f"(max abs diff {float(np.abs(y - ref).max()):.4g} on {int(bad.sum())} of {bad.size} outputs)", {"layer": sp})
+        else:
+          n_layer += 1
+        cur = tf.constant(y)
+      # ---- unfold_model: plain quantized layers with the folded weights, same predictions at inference
+      y_f = m(xin, training=False).numpy()
+      with keras.utils.custom_object_scope(co):
+        um = bfu.unfold_model(m)
+      y_u = um(xin, training=False).numpy()
+      kinds = [type(l).__name__ for l in um.layers[1:]]
+      wantk = ["QDepthwiseConv2D" if sp["depthwise"] else "QConv2D" for sp in spec]
+      if kinds != wantk:
+        rep.violation(f"unfold-classes-{i}", f"unfold_model produced layers {kinds}, expected {wantk}", {"model": desc})
+      bad = np.abs(y_f - y_u) > 1e-5 * (1 + np.abs(y_f).max())
+      anyact = any(sp["act"] for sp in spec) or any(sp["kq"] or sp["bq"] for sp in spec)
+      if bad.mean() > (0.02 if anyact else 0.0):
+        rep.violation(f"unfold-equiv-{i}", f"{desc}: predictions of the folded model and of unfold_model(model) differ at inference "
+                      f"(max abs diff {float(np.abs(y_f - y_u).max()):.4g} on {int(bad.sum())} of {bad.size} outputs)", {"model": desc})
+      else:
+        n_unfold += 1
+      for lf, lu, sp in zip(lyrs, um.layers[1:], spec):
+        fw = [np.asarray(a) for a in lf.get_folded_weights()]
+        uw = lu.get_weights()
+        if len(uw) != 2 or not (np.array_equal(uw[0], fw[0]) and np.array_equal(uw[1], fw[1])):
+          rep.violation(f"unfold-weights-{i}-{lf.name}", f"{sp}: the unfolded layer does not carry the folded kernel and bias", {"layer": sp})
+        if not lu.use_bias:
+          rep.violation(f"unfold-bias-{i}-{lf.name}", f"{sp}: the unfolded layer has no bias although folding always produces one", {"layer": sp})
+        uq = [str(q) if q is not None else None for q in lu.get_quantizers()]
+        fq = [str(q) if q is not None else None for q in lf.get_quantizers()]
+        if uq != fq:
+          rep.violation(f"unfold-quantizers-{i}-{lf.name}", f"{sp}: quantizers of the unfolded layer {uq} differ from the folded layer's {fq}", {"layer": sp})
+    except Exception as e:  # pylint: disable=broad-except
+      import traceback
+      rep.violation(f"real-raises-{i}", f"{desc}: {type(e).__name__}: {str(e)[:300]} @ {traceback.format_exc()[-300:]}", {"model": desc})
+  rep.note(real_folded_layers_equal=n_layer, unfolded_models_equal=n_unfold, real_models=n)
 
 
 def main():
@@ -123,7 +267,7 @@ def main():
       r = 1.0 / tf.sqrt(bn.moving_variance + bn.epsilon)
       # documented formulas for the folded weights
       inv = g * r
-      want_fb = ((b - bn.moving_mean) * inv + bn.beta).numpy()
+      want_fb = ((b - bn.moving_mean) * inv + bn.beta_ref).numpy()
       want_fk = (kern * (tf.reshape(inv, (ci, dm)) if depthwise else inv)).numpy()    # output channel c*dm + m <-> kernel[:, :, c, m]
       tolw = 1e-5 * (1.0 + float(np.max(np.abs(want_fk))))
       if not (np.allclose(fk, want_fk, rtol=1e-4, atol=tolw) and np.allclose(fb, want_fb, rtol=1e-4, atol=1e-5 * (1 + float(np.max(np.abs(want_fb)))))):
@@ -133,7 +277,7 @@ def main():
       qk_ = get_quantizer(kq) if kq else (lambda t: t)
       qb_ = get_quantizer(bq) if bq else (lambda t: t)
       if kq is None and bq is None:
-        ref = (g * r * (conv(kern) + b - bn.moving_mean) + bn.beta).numpy()      # conv followed by batch norm
+        ref = (g * r * (conv(kern) + b - bn.moving_mean) + bn.beta_ref).numpy()      # conv followed by batch norm
       else:
         ref = (conv(qk_(tf.constant(want_fk))) + qb_(tf.constant(want_fb))).numpy()   # conv with quantized folded weights
       scale_ref = 1.0 + float(np.max(np.abs(ref)))
@@ -163,7 +307,12 @@ def main():
     convert_to_folded_model(m)
   except Exception as e:  # pylint: disable=broad-except
     rep.finding("C15-convert-to-folded-model-needs-keras2-graph", f"convert_to_folded_model raises {type(e).__name__}: {str(e)[:140]}", {})
+  real_layers(rep, rng)
   rep.assumptions += ["convolution is homogeneous in the kernel (bilinearity) -- a Section hypothesis of the theorems; rsqrt is an oracle",
+                      "real folded layers: built with a Keras-2 style BatchNormalization stand-in installed in the `layers` namespace of the two qkeras "
+                      "modules (harness/env.py install_keras2_batchnorm_standin: bookkeeping of four weights and epsilon only) and the Keras-2 accessor "
+                      "Variable.get_shape(); build, call, get_folded_weights, unfold_model and convert_folded_layer_to_unfolded are /repo's code, "
+                      "unfold_model under the graph accessor shims and a custom_object_scope",
                       "the folded layers are driven through their unbound call / get_folded_weights on a stand-in self with Keras-2 style batch-norm "
                       "attributes (the classes themselves do not build under the pinned Keras 3: known finding); tolerance 2e-4 relative "
                       "(rsqrt vs sqrt/divide, summation order)",
